@@ -36,6 +36,13 @@ type c20Params struct {
 	RType int `json:"rtype,omitempty"`
 	// Concurrent: the application's first Write and first Read are issued by two tasks at the same time
 	Concurrent bool `json:"concurrent,omitempty"`
+	// Stall (raw): the client stays connected, silent, for five seconds after its bytes; the server application has
+	// set a read deadline 400 ms ahead before its first Read, which must come back by then - as it does from the
+	// stack directly
+	Stall bool `json:"stall,omitempty"`
+	// ViaCallback: the configurations given to the listener carry no certificates of their own; they name a
+	// GetConfigForClient callback that returns the complete configuration
+	ViaCallback bool `json:"via_callback,omitempty"`
 }
 
 // c20RawBytes is what a raw client sends: one record of the given type and version (cut to SendLen bytes).
@@ -49,6 +56,13 @@ func c20RawBytes(p *c20Params) []byte {
 		return []byte{20, byte(p.Major), byte(p.Minor), 0, 1, 1, 0, 0, 0, 0, 0, 0}
 	}
 	return []byte{22, byte(p.Major), byte(p.Minor), 0, 7, 1, 0, 0, 3, 1, 1, 0}
+}
+
+func c20RawWait(p *c20Params) time.Duration {
+	if p.Stall {
+		return 5 * time.Second
+	}
+	return 2 * time.Second
 }
 
 func (c20) ID() string    { return "C20" }
@@ -89,12 +103,16 @@ func drawC20(src *vs.Src) *c20Params {
 		if src.Bool(1, 3) {
 			p.RType = pickInt(src, []int{21, 23, 20})
 		}
+		if src.Bool(1, 3) {
+			p.Stall, p.FirstOp = true, "read"
+		}
 	} else if p.Client == "tlcp" && p.Config == "tlcp-only" {
 		// only where no crypto/tls connection can come into being, however the adapter routes: crypto/tls is real,
 		// uninstrumented code whose internal mutexes the kernel cannot schedule around (two tasks inside one
 		// tls.Conn would stop the simulation, not the library)
 		p.Concurrent = true
 	}
+	p.ViaCallback = src.Bool(1, 3)
 	return p
 }
 
@@ -144,6 +162,15 @@ func (c20) Run(c *Case, src *vs.Src) *Result {
 	if p.Config != "tlcp-only" {
 		cfgS = tlsSrv
 	}
+	if p.ViaCallback {
+		if cfgT != nil {
+			cfgT = (&EPConf{Certs: []string{"server_sig", "server_enc"}, Clone: 2}).BuildTLCP(env, "s-outer")
+		}
+		if cfgS != nil {
+			full := tlsSrv
+			cfgS = &tls.Config{Rand: full.Rand, Time: full.Time, MinVersion: full.MinVersion, GetConfigForClient: func(*tls.ClientHelloInfo) (*tls.Config, error) { return full, nil }}
+		}
+	}
 	pipe := simnet.NewPipe("client:1", "server:443")
 	pipe.S.Seg = p.Seg
 	pipe.C.Seg = p.Seg
@@ -162,6 +189,7 @@ func (c20) Run(c *Case, src *vs.Src) *Result {
 	var srvErr error
 	var srvGot []byte
 	var firstErr, secondErr error
+	firstBack := time.Duration(-1) // when the application's first Read came back
 	secondDone := true
 	// after a failed first operation the application tries the other one as well: it must fail too, not hang
 	second := func(first string) {
@@ -195,8 +223,14 @@ func (c20) Run(c *Case, src *vs.Src) *Result {
 			}
 		}
 		buf := make([]byte, p.Buf)
+		if p.Stall {
+			sconn.SetReadDeadline(vs.Now().Add(400 * time.Millisecond))
+		}
 		for len(srvGot) < len(msg) {
 			n, err := sconn.Read(buf)
+			if firstBack < 0 {
+				firstBack = w.K.Elapsed()
+			}
 			srvGot = append(srvGot, buf[:n]...)
 			if len(srvGot) >= len(msg) {
 				break // the last bytes may arrive together with the end-of-stream indication
@@ -246,7 +280,7 @@ func (c20) Run(c *Case, src *vs.Src) *Result {
 				pipe.C.Write(hdr[:p.SendLen])
 			}
 			// a raw client may wait for a reply for a while, then disconnects
-			pipe.C.SetReadDeadline(vs.Now().Add(2 * time.Second))
+			pipe.C.SetReadDeadline(vs.Now().Add(c20RawWait(p)))
 			b := make([]byte, 64)
 			pipe.C.Read(b)
 			pipe.C.Close()
@@ -269,7 +303,7 @@ func (c20) Run(c *Case, src *vs.Src) *Result {
 		w.Go("ref-client", func() {
 			hdr := c20RawBytes(p)
 			rp.C.Write(hdr[:p.SendLen])
-			rp.C.SetReadDeadline(vs.Now().Add(2 * time.Second))
+			rp.C.SetReadDeadline(vs.Now().Add(c20RawWait(p)))
 			rp.C.Read(make([]byte, 64))
 			rp.C.Close()
 		})
@@ -281,6 +315,9 @@ func (c20) Run(c *Case, src *vs.Src) *Result {
 				_, refSrv := c20TLSConfigs(w)
 				refSrv.Rand = w.Rand("ref-tls-s")
 				direct = tls.Server(rp.S, refSrv)
+			}
+			if p.Stall {
+				direct.SetReadDeadline(vs.Now().Add(400 * time.Millisecond))
 			}
 			if p.FirstOp == "write" {
 				_, refErr = direct.Write(reply)
@@ -296,10 +333,18 @@ func (c20) Run(c *Case, src *vs.Src) *Result {
 		r.Violate("hang", sigp+" not-ended "+reason, "run ended with %q, unfinished %v; first error %v, second operation finished: %v", reason, unf, firstErr, secondDone)
 		return r
 	}
+	if p.Stall && (firstErr == nil || firstBack > 450*time.Millisecond) {
+		r.Violate("deadline", "C20 raw read-deadline-not-honoured", "the application set a read deadline 400 ms ahead before its first Read; the client sent %d bytes (major %d) and fell silent; the Read came back at %v with %v", p.SendLen, p.Major, firstBack, firstErr)
+	}
 	if firstErr != nil && secondErr == nil {
 		r.Violate("second-op", sigp+" second-operation-succeeded", "the first operation failed with %v, the other one then returned nil", firstErr)
 	}
-	if refRan && errStr(firstErr) != errStr(refErr) {
+	if refRan && p.Stall && firstErr != nil && isTimeout(firstErr) && refErr != nil && !isTimeout(refErr) {
+		// the stack, given the same bytes directly, answers the header at once; through the adapter the answer waits
+		// for bytes that never come: the adapter's Read holds the peeked header back until the live stream delivers
+		// at least one byte more
+		r.Violate("through", "C20 raw stalled-after-header: header held back until more bytes arrive", "a client that sent %d bytes (type %d, major %d) and fell silent: the stack directly answers the first %s with %q; through the adapter the same call waits for more bytes and ends with %q at the application's deadline (pa.ProtocolDetectConn.Read, having copied the peeked header into a buffer with room to spare, blocks in Conn.Read for the rest)", p.SendLen, c20RawBytes(p)[0], p.Major, p.FirstOp, errStr(refErr), errStr(firstErr))
+	} else if refRan && errStr(firstErr) != errStr(refErr) {
 		r.Violate("through", "C20 raw error-differs-from-direct-stack", "a client that sent %d bytes (major %d) and went away: through the adapter the first %s returned %q, the same bytes given to the stack directly give %q", p.SendLen, p.Major, p.FirstOp, errStr(firstErr), errStr(refErr))
 	}
 	// which stack serves the connection: normally asked of the adapter; a listener that hands out a stack's
